@@ -419,6 +419,7 @@ type GenOpts struct {
 	P4          []string
 	P5          []string
 	P3Noop      int // per cent of the cases laid out with OrderingNoop
+	AdvIDs      int // per cent of the cases whose node names come from the adversarial pools (C08: names are opaque)
 	SizeModes   []string
 	VirtualOut  []bool
 	SpacingsPos bool // strictly positive spacings
@@ -541,6 +542,12 @@ func genCase(r *Rng, o GenOpts) Case {
 				c.Sizes[id] = [2]float64{dyadic(r, 12), dyadic(r, 8)}
 			}
 		}
+	}
+	// names are opaque (C08): now and then take them from the adversarial pools. Not with helper nodes in the output:
+	// their names "V<k>" may then coincide with input names, and the oracles tell nodes apart by name
+	if o.AdvIDs > 0 && !c.VirtualOut && r.Bool(o.AdvIDs) {
+		c = renameCase(c, adversarialRenaming(c, r))
+		c.Kind += "+names"
 	}
 	return c
 }
